@@ -6,6 +6,7 @@ import Driver.Ops.Compile
 import Driver.Ops.Denote
 import Driver.Ops.Finish
 import Driver.Ops.Ssm
+import Driver.Ops.Subst
 /-! Registry of operation handlers: each model area adds one import above and one entry below. -/
 open Lean
 namespace Pepper.Driver
@@ -17,7 +18,8 @@ def handlers : List (String → Json → Option Json) := [
   Compile.handle?,
   DenoteOps.handle?,
   FinishOps.handle?,
-  Ssm.handle?
+  Ssm.handle?,
+  Subst.handle?
 ]
 
 def handle (j : Json) : Json :=
